@@ -43,10 +43,57 @@ func hexVal(c byte) int {
 	return -1
 }
 
+func stripUnderscores(s string) (string, bool) {
+	body := s
+	if body[0] == '+' || body[0] == '-' {
+		body = body[1:]
+	}
+	i, hex, prev := 0, false, byte('^')
+	if len(body) >= 2 && body[0] == '0' && strings.ContainsRune("xXbBoO", rune(body[1])) {
+		i, prev, hex = 2, '0', body[1] == 'x' || body[1] == 'X'
+	}
+	for ; i < len(body); i++ {
+		c := body[i]
+		switch {
+		case isDigit(c) || (hex && hexVal(c) >= 0):
+			prev = '0'
+		case c == '_':
+			if prev != '0' {
+				return "", false
+			}
+			prev = '_'
+		default:
+			if prev == '_' {
+				return "", false
+			}
+			prev = '!'
+		}
+	}
+	if prev == '_' {
+		return "", false
+	}
+	return strings.ReplaceAll(s, "_", ""), true
+}
+
 const maxRefExponent = 100000 // |exponent| above this is outside every grid of this check
 
-// parseRef values s exactly. It never rounds.
+// parseRef values s exactly (memoised per process; the memo is dropped when it grows large).
+var refMemo = map[string]refNum{}
+
 func parseRef(s string) refNum {
+	if n, ok := refMemo[s]; ok {
+		return n
+	}
+	if len(refMemo) > 1<<16 {
+		refMemo = map[string]refNum{}
+	}
+	n := parseRefUncached(s)
+	refMemo[s] = n
+	return n
+}
+
+// parseRefUncached values s exactly. It never rounds.
+func parseRefUncached(s string) refNum {
 	if s == "" {
 		return refNum{Syntax: "empty"}
 	}
@@ -54,7 +101,17 @@ func parseRef(s string) refNum {
 		return refNum{Syntax: "whitespace"}
 	}
 	if strings.Contains(s, "_") {
-		return refNum{Syntax: "underscore"}
+		// Go number syntax: an underscore may only separate two digits or follow a base prefix; it does not
+		// change the value. Anything else containing '_' denotes no number.
+		stripped, ok := stripUnderscores(s)
+		if !ok {
+			return refNum{Syntax: "underscore"}
+		}
+		n := parseRefUncached(stripped)
+		if n.Valued {
+			n.Syntax = "underscore"
+		}
+		return n
 	}
 	body := s
 	if body[0] == '+' || body[0] == '-' {
@@ -278,14 +335,13 @@ func causeClass(k annKind, s string, preferSyntax bool) string {
 		return n.Syntax
 	}
 	rt := rangeTag(k, n)
-	if preferSyntax {
-		if n.Syntax != "plain" {
-			return n.Syntax
-		}
+	switch {
+	case preferSyntax && n.Syntax != "plain":
+		return n.Syntax
+	case rt != "in-range":
 		return rt
+	case n.Syntax != "plain":
+		return n.Syntax
 	}
-	if rt != "in-range" {
-		return rt
-	}
-	return n.Syntax
+	return "plain-in-range"
 }
